@@ -190,7 +190,7 @@ def check(idx: Index, rep: Report, tier: str) -> str:
         sets_ = []
         for c_ in helper_calls:
             h = idx.try_func(PE, c_.func.id)
-            for nm_ in {x.id for x in ast.walk(h.raw_node) if isinstance(x, ast.Name)}:
+            for nm_ in {x.id for x in ast.walk(h.as_raw().node) if isinstance(x, ast.Name)}:
                 v_ = idx.module(PE).assigns.get(nm_)
                 if v_ is not None and isinstance(v_, ast.Call) and unparse(v_.func) in ("frozenset", "set", "tuple") and v_.args and isinstance(v_.args[0], (ast.Tuple, ast.List, ast.Set)):
                     vals_: set[int] | None = set()
